@@ -7,6 +7,10 @@ Correspondence streams (engine `c02`, model `Model/Materialize.lean` + `Model/Co
              computed them (kind, spans_intercept, and for both rank settings the object stored in
              `encoded_cache` with the metadata `_encode_evaled_factor` consults) plus the term list;
              the model returns the per-term scoped terms, the column names and the exact values.
+             A second, `typed`, sub-stream stores the numeric columns in every numpy storage dtype (int8..int64,
+             uint8..uint64, float16/32/64) with values that need the full width of that dtype (up to 2**31-1,
+             2**32-1, 2**52; 11/24/53 significant bits), so that a column that is silently narrowed on one output
+             path (e.g. stored as float32 in the sparse encoder) no longer equals what its label denotes.
 * `columns`  `_get_columns_for_term` of the base class / PandasMaterializer / NarwhalsMaterializer
              on random factor dictionaries against `Model.columnsBase` / `Model.columnsFast`.
 * `simplify` `_simplify_scoped_terms` on random lists of scoped terms against `Model.simplify`.
@@ -17,7 +21,8 @@ Oracle (implementation only): rank reduction off -> the whole matrix is recomput
 row-wise Kronecker order with the first factor fastest, times the literal scale; rank reduction on
 -> every emitted column is recomputed from the implementation's own encoded factors named by its
 scoped term, the scale must be the product of the term's literals, treatment-coded columns must be
-level indicators. The intercept must be a column of ones named `Intercept`.
+level indicators and the encoded columns of a numeric factor must be the data column / the re-evaluated expression
+its label names (exactly, for every storage dtype and output type). The intercept must be a column of ones named `Intercept`.
 """
 from __future__ import annotations
 
@@ -46,6 +51,11 @@ TRUSTED = [
     "numpy/scipy element-wise multiplication and scalar scaling are modelled as exact rational arithmetic; inputs are "
     "small integers / dyadic rationals so the float results are exact (cases using contr.poly / contr.diff are compared with "
     "relative tolerance 1e-9)",
+    "typed stream: numpy's arithmetic IN THE STORAGE DTYPE (type promotion, integer wrap-around, float16/float32 rounding of "
+    "products) is not modelled; the generator keeps every term inside an exact-arithmetic envelope (`in_envelope`: every "
+    "expression value fits each storage dtype it reads; row by row the product of all factor magnitudes and the literal "
+    "scale fits the narrowest storage dtype of the term and 53 / 24 / 11 significant bits), so that any rounding or "
+    "wrap-around observed is introduced by formulaic's own conversions, not by numpy's multiplication",
     "not modelled: nested dictionaries inside an encoded factor (nothing in formulaic produces them), "
     "`metadata.encoded=True` pre-encoded factors, reuse of a stored `structure` (C04/C09), null handling / drop_rows (C06)",
 ]
@@ -60,6 +70,10 @@ RULE = (
     "levels, object or Categorical dtype; 1-3 numeric columns over small integers/dyadics), formulas of 1-5 terms over "
     "names, C(x[, contr.*]), I(), {}, a two-column transform, 0-3 numeric literal scalings per term (distinct values, any position), interactions up to degree 3, "
     "intercept on/off; x ensure_full_rank x output in pandas/numpy/sparse x cluster_by x materializer pandas/narwhals. "
+    "typed matrix (n/2 extra cases, materializer pandas/narwhals evenly): the same frames/formulas with every plain numeric column stored as a random numpy dtype "
+    "(int8/16/32/64, uint8/16/32/64, float16/32/64; 32-bit and wider weighted up) holding full-width values (magnitudes up to "
+    "the dtype's maximum, 2**52 for 64-bit; n/4 dyadics for floats; small values mixed in), terms cut back to the "
+    "exact-arithmetic envelope (see TRUSTED). "
     "columns: 1-4 factor dicts with 1-3 entries. simplify: up to 7 scoped terms over 4 factors. "
     "non-trivial = matrix case with an interaction term; distinct by canonical JSON"
 )
@@ -194,7 +208,7 @@ def make_frame(data):
         else:
             cols[k] = pandas.Series(vals, dtype=object)
     for k, v in data["num"].items():
-        cols[k] = numpy.array([ffloat(x) for x in v])
+        cols[k] = typed_array(v, data.get("dtype", {}).get(k, "float64"))
     return pandas.DataFrame(cols)
 
 
@@ -219,7 +233,9 @@ def gen_atom(rng, data, used):
 LITERALS = ["2", "3", "0.5", "2.5", "4", "5", "0.0"]
 
 
-def gen_formula(rng, data):
+def gen_formula(rng, data, accept=None):
+    """`accept(atoms) -> bool` (typed stream): a term outside the exact-arithmetic envelope is cut back - first its
+    literal scalings are dropped, then it is reduced to its first factor, then to a bare column"""
     nterms = rng.randint(1, 5)
     terms = []
     seen = set()
@@ -236,11 +252,190 @@ def gen_formula(rng, data):
         # 0, 1, 2 or 3 numeric literal factors with distinct values, each at a random position among the
         # factors: the term's literal scale is the product of ALL of them, under both rank settings
         nlit = rng.choice([0, 0, 0, 1, 1, 2, 2, 3])
+        bare = list(atoms)
         for lit in rng.sample(LITERALS, nlit):
             atoms.insert(rng.randrange(len(atoms) + 1), lit)
+        if accept is not None and not accept(atoms):
+            plain = sorted(data["cat"]) + [n for n in sorted(data["num"]) if n.isidentifier()]
+            for alt in [bare, bare[:1], [rng.choice(plain)]]:
+                if accept(alt) and (alt == bare or frozenset(alt) not in seen):
+                    atoms = alt
+                    break
+            else:
+                continue
+            seen.add(frozenset(atoms))
         terms.append(":".join(atoms))
     icpt = rng.choice(["", "", "0 + ", "1 + ", "-1 + "])
+    if not terms:
+        terms = ["1"]
     return icpt + " + ".join(terms)
+
+
+# ----------------------------------------------------------------------------- storage dtypes (typed stream)
+
+# name -> (largest magnitude used, significant bits the dtype holds exactly, is_float, weight in the generator).
+# 64-bit integers are used up to 2**52 only: every output type ends in float64 at the latest.
+DTYPES = {
+    "int8": (2**7 - 1, 7, False, 1),
+    "int16": (2**15 - 1, 15, False, 1),
+    "int32": (2**31 - 1, 31, False, 3),
+    "int64": (2**52 - 1, 52, False, 2),
+    "uint8": (2**8 - 1, 8, False, 1),
+    "uint16": (2**16 - 1, 16, False, 1),
+    "uint32": (2**32 - 1, 32, False, 3),
+    "uint64": (2**52 - 1, 52, False, 2),
+    "float16": (2**11 - 1, 11, True, 1),
+    "float32": (2**24 - 1, 24, True, 2),
+    "float64": (2**52 - 1, 52, True, 2),
+}
+
+
+def typed_array(vals, dtype):
+    """exact construction of a stored column: integers from Python ints, floats from dyadic rationals"""
+    if DTYPES[dtype][2]:
+        return numpy.array([ffloat(x) for x in vals], dtype=dtype)
+    return numpy.array([int(Fraction(x)) for x in vals], dtype=dtype)
+
+
+def sig_bits(fr) -> int:
+    """significant bits of a dyadic rational (0 for zero, 1 for a power of two); 99 if not dyadic"""
+    fr = Fraction(fr)
+    if fr == 0:
+        return 0
+    if fr.denominator & (fr.denominator - 1):
+        return 99
+    n = abs(fr.numerator)
+    return (n // (n & -n)).bit_length()
+
+
+# what the dtype itself can hold exactly: largest magnitude / significant bits (integers: the range is the limit)
+MAXABS = {k: (v[0] if not v[2] else {"float16": 2**15, "float32": 2**100, "float64": 2**200}[k]) for k, v in DTYPES.items()}
+PRECISION = {k: ({"float16": 11, "float32": 24, "float64": 53}[k] if v[2] else 64) for k, v in DTYPES.items()}
+
+
+def holds(fr, dtype) -> bool:
+    """can a column of this storage dtype hold the value exactly?"""
+    fr = Fraction(fr)
+    if DTYPES[dtype][2]:
+        return sig_bits(fr) <= PRECISION[dtype] and abs(fr) <= MAXABS[dtype]
+    lo = 0 if dtype.startswith("u") else -MAXABS[dtype]
+    return fr.denominator == 1 and lo <= fr <= MAXABS[dtype]
+
+
+def gen_typed_values(rng, dtype, nrows):
+    top, bits, is_float, _ = DTYPES[dtype]
+    signed = not dtype.startswith("u")
+    kcol = bits if rng.random() < 0.5 else rng.randint(2, bits)
+    quarter = is_float and rng.random() < 0.3  # dyadic fractions n/4 with the same number of significant bits
+    out = []
+    for _ in range(nrows):
+        r = rng.random()
+        if r < 0.25:
+            v = Fraction(rng.randint(-4 if signed else 0, 6))
+        elif r < 0.32 and not quarter:
+            v = Fraction(top)  # the largest magnitude this stream stores in the dtype
+        else:
+            k = rng.randint(max(1, kcol - 3), kcol)
+            v = Fraction(rng.randint(2 ** (k - 1), 2**k - 1))
+            if quarter:
+                v = v / 4
+        if signed and r >= 0.25 and rng.random() < 0.4:
+            v = -v
+        out.append(fstr(v))
+    return out
+
+
+def gen_typed_data(rng, nrows):
+    """as gen_data, but every plain numeric column is STORED in a random numpy dtype (8-64 bit signed/unsigned
+    integers, half/single/double floats) and holds values that need the full width of that dtype"""
+    data = gen_data(rng, nrows)
+    names = list(DTYPES)
+    weights = [DTYPES[n][3] for n in names]
+    data["dtype"] = {}
+    for name in sorted(data["num"]):
+        if not name.isidentifier():
+            continue
+        dt = rng.choices(names, weights)[0]
+        data["dtype"][name] = dt
+        data["num"][name] = gen_typed_values(rng, dt, nrows)
+    return data
+
+
+def _source_atom(atom, data):
+    """source text of a numeric atom -> (columns it reads, exact semantics) | None"""
+    nums = sorted(data["num"])
+    if atom.startswith("`") and atom.endswith("`") and atom[1:-1] in nums:
+        return [atom[1:-1]], NUM_ATOMS["{v}"][1], atom[1:-1], atom[1:-1]
+    ids = [n for n in nums if n.isidentifier()]
+    for src, (_, fn) in NUM_ATOMS.items():
+        for v in ids:
+            for w in ids:
+                if src.format(v=v, w=w) == atom:
+                    return ([v, w] if "{w}" in src else [v]), fn, v, w
+    return None
+
+
+def in_envelope(atoms, data) -> bool:
+    """Is every arithmetic step of this term exact whatever dtype numpy carries it out in?
+
+    With EXACT rational arithmetic: (a) the value of every numeric factor fits each storage dtype it reads (no
+    wrap-around / rounding inside `x*y`, `x+1`, ... which numpy evaluates in the promoted storage dtype); (b) row by
+    row, the product of the magnitudes (each at least 1) of all numeric factors, contrast entries and literal
+    scalings stays within the narrowest storage dtype the term reads and its significant bits (sum over the
+    factors, powers of two are free) within 53 and the precision of the narrowest float dtype it reads - so every
+    partial product, in any association order and under any numpy type promotion, is exactly representable."""
+    n = data["nrows"]
+    dtypes = data.get("dtype", {})
+    exact = {k: numpy.array([Fraction(x) for x in v], dtype=object) for k, v in data["num"].items()}
+    mags = [Fraction(1)] * n
+    bits = [0] * n
+    used = set()
+
+    def mul(*fields):
+        # one factor; several fields (a multi-column transform) are alternatives, never multiplied with each other
+        for i in range(n):
+            mags[i] *= max([Fraction(1)] + [abs(Fraction(f[i])) for f in fields])
+            b = max(sig_bits(f[i]) for f in fields)
+            bits[i] += b if b > 1 else 0
+
+    for a in atoms:
+        if a in LITERALS:
+            mul([Fraction(a)] * n)
+            continue
+        src = _source_atom(a, data)
+        if src is None:
+            # categorical factor: indicator / contrast entries (|entry| <= levels - 1; contr.poly / contr.diff are
+            # compared with a relative tolerance)
+            big = Fraction(3) if ("helmert" in a) else Fraction(1)
+            mul([big] * n)
+            continue
+        cols, fn, v, w = src
+        used.update(cols)
+        fields = [list(f) for f in fn(exact, v, w).values()]
+        for field in fields:
+            for x in field:
+                if not all(holds(x, dtypes.get(c, "float64")) for c in cols):
+                    return False
+        mul(*fields)
+    for c in used:
+        dt = dtypes.get(c, "float64")
+        if any(m > MAXABS[dt] for m in mags) or any(b > PRECISION[dt] for b in bits):
+            return False
+    return all(b <= 53 for b in bits)
+
+
+def gen_typed_matrix_case(rng, tier):
+    maxrows = 6 if tier == "quick" else 20
+    data = gen_typed_data(rng, rng.randint(1, maxrows))
+    return dict(
+        kind="matrix",
+        data=data,
+        formula=gen_formula(rng, data, accept=lambda atoms: in_envelope(atoms, data)),
+        efr=rng.random() < 0.5,
+        output=rng.choice(["pandas", "numpy", "sparse"]),
+        cluster=rng.random() < 0.3,
+        mat=rng.choice(["pandas", "narwhals"]),  # storage-dtype conversions live in each materializer's encoders
+    )
 
 
 def gen_matrix_case(rng, tier):
@@ -304,6 +499,8 @@ def cases(rng, tier):
     n = {"quick": 900, "thorough": 9000, "search": 200}[tier]
     for i in range(n):
         yield gen_matrix_case(rng, tier)
+    for i in range(n // 2):
+        yield gen_typed_matrix_case(rng, tier)
     for i in range(n // 4):
         yield gen_columns_case(rng)
     for i in range(n // 4):
@@ -321,7 +518,8 @@ def _max_literals(formula):
 
 def describe(c):
     if c["kind"] == "matrix":
-        return f"matrix,{c['mat']},{c['output']},efr={int(c['efr'])},maxlit={_max_literals(c['formula'])}"
+        typed = ",typed" if c["data"].get("dtype") else ""
+        return f"matrix{typed},{c['mat']},{c['output']},efr={int(c['efr'])},maxlit={_max_literals(c['formula'])}"
     return c["kind"]
 
 
@@ -344,7 +542,11 @@ def _enc_json(m, ef, spec, r):
     m._encode_evaled_factor(ef, spec, [], reduced_rank=r)  # make sure the cache entry exists
     k = ef.expr
     enc = m.encoded_cache[k] if k in m.encoded_cache else m.encoded_cache[(k, r)]
-    md = getattr(enc, "__formulaic_metadata__", ef.metadata)
+    if isinstance(enc, tuple):
+        # since the repair "every spec that uses a categorical factor records its encoder state" a cache entry is the
+        # pair (encoded object, recorded encoder state); an encoded object itself is never a tuple
+        enc = enc[0]
+    md =getattr(enc, "__formulaic_metadata__", ef.metadata)
     if isinstance(enc, dict):
         for v in enc.values():
             if isinstance(v, dict):
@@ -745,6 +947,15 @@ def oracle_matrix(c, o):
                 flat = o["flat"][e + ("-" if r else "")]
                 facs.append([(nm, numpy.array(v)) for nm, v in flat])
                 sem = atom_semantics(e, data)
+                if sem and sem[0] == "num":
+                    # a numeric factor is encoded as itself: the column(s) its label names are the data column /
+                    # the value of the Python expression, whatever the storage dtype and the output type
+                    want = _full_encoding(e, data, c["mat"])[1]
+                    if [nm for nm, _ in want] != [nm for nm, _ in flat]:
+                        return f"numeric factor {e}: encoded columns {[nm for nm, _ in flat]}, expected {[nm for nm, _ in want]}"
+                    for (nm, w), (_, v) in zip(want, flat):
+                        if not _close(v, w, False):
+                            return f"encoded column {nm} is {list(v)}, the data say {w.tolist()}"
                 if sem and sem[0] == "cat" and (e == sem[1] or e == f"C({sem[1]})" or "contr.treatment" in e or not r):
                     # dummy coding: every column is the indicator of the level in its name
                     ci = data["cat"][sem[1]]
@@ -815,7 +1026,8 @@ LEVEL_TEXT = (
     "structural label names, that the intercept is scale*ones named Intercept, that the pandas/narwhals fast path equals "
     "the base product, and that with rank reduction off each term yields the row-wise Kronecker product of the full "
     "encodings (first factor fastest). The model is tied to the code by a differential correspondence on every run "
-    "(labels and exact values of whole matrices); a data-level oracle recomputes the matrix independently."
+    "(labels and exact values of whole matrices, numeric columns in every numpy storage dtype with full-width values "
+    "included); a data-level oracle recomputes the matrix independently."
 )
 LEVEL_NOTE = (
     "Trusted: Lean kernel + propext/Classical.choice/Quot.sound; the hand model of base.py/pandas.py/narwhals.py "
